@@ -78,7 +78,9 @@ void AsyncFileAppender::keep_writing() noexcept {
         [&](Queue::Iterator iter, Queue::Iterator end) {
           while (iter < end) {
             auto& item = *iter++;
-            if (ABSL_PREDICT_FALSE(item.entry.size == 0)) {
+            // the stop marker pushed by close() is the only item without a file;
+            // an empty entry written by a client must not stop the writer
+            if (ABSL_PREDICT_FALSE(item.file == nullptr)) {
               stop = true;
               break;
             }
